@@ -44,6 +44,8 @@ type Sim struct {
 	gwCancel    context.CancelFunc
 	gwDone      chan error
 	censusBase  int
+	cliDir      string
+	cliEnv      []string
 }
 
 // Result is what a run hands to the oracles.
@@ -220,6 +222,10 @@ func (s *Sim) run(res *Result) {
 	}
 	if cfg.Gateway {
 		s.startGateway()
+	}
+	if plan.CLI != nil {
+		s.startCLI()
+		defer s.stopCLI()
 	}
 	for i := range plan.Peers {
 		p := s.newRawPeer(i, &plan.Peers[i])
